@@ -91,6 +91,44 @@ def streams(rng, tier, ctx):
             H.finish(sim, drain=True, max_ticks=300)
             cid = "r%d" % i
             cases.append((cid, sim.ops)); meta[cid] = sim
+        # short tails re-sent together: Reliable / Persistent packets of one full fragment plus a tail of 1..255 bytes; every frame
+        # carrying a tail is lost the first time, the heads are acknowledged; one RTO later all tails are due at once and are packed
+        # into as few frames as fit - the frame-size accounting of re-sent short last fragments is what is exercised
+        q = 6 if tier == "quick" else 120
+        for i in range(q):
+            r = rng.fork()
+            it.op("=== gent%d" % i)
+            cfg = pick_cfg(r); cfg["pw"] = 64; cfg["fw"] = 64; cfg["allocA"] = cfg["allocB"] = 400000; cfg["bwA"] = cfg["bwB"] = 20_000_000
+            sim = Sim(r, cfg, inter=it)
+            ok = Net(latency=r.pick([0, 1_000_000]))
+            def warm(sim, ep):
+                if ep == "A" and sim.tick < 120:           # slow start has to open far enough for a dozen frames per flush
+                    for _ in range(4):
+                        sim.send("A", r.below(2), r.pick([1, 3]), F)
+            sim.run(150, 5_000_000, ok, ok, warm)
+            lost = set()
+            def fate(sim, ep, idx, f, lost=lost):
+                if ep != "A" or f["kind"] != "D":
+                    return None
+                tails = [d for d in f["dgs"] if d["last"] > 0 and d["frag"] == d["last"] and d["dlen"] < 256]
+                fresh = [d for d in tails if (d["seq"], d["frag"]) not in lost]
+                if fresh:
+                    for d in fresh:
+                        lost.add((d["seq"], d["frag"]))
+                    return []
+                return None
+            sim.fate_fn = fate
+            # k tails of t bytes fill a frame to the brim when 10 + k * (14 + t) is about 1472 (14 = large datagram header, which
+            # every fragment of a multi-fragment packet carries)
+            k = r.pick([6, 6, 7, 8, 9, 10, 12])
+            t = min(255, max(1, 1462 // k - 14 + r.pick([-3, -1, 0, 1, 1, 2, 3, 4, 5, 6])))
+            for _ in range(k + r.pick([0, 0, 1])):
+                sim.send("A", r.below(2), r.pick([3, 3, 2]), F + t)
+            sim.run(r.range(60, 120), 5_000_000, ok, ok)
+            sim.fate_fn = None
+            H.finish(sim, drain=True, max_ticks=300)
+            cid = "t%d" % i
+            cases.append((cid, sim.ops)); meta[cid] = sim
         m = 6 if tier == "quick" else 150
         for i in range(m):
             r = rng.fork()
